@@ -34,8 +34,8 @@ WORKERS = 8
 VARIANTS = (  # (variant, cfg substitutions, what TLC must report)
     ("copy_shared", {"XOps <- CallsX": "XOps <- ObjX", "MaxOps = 1": "MaxOps = 2", "LenMode = \"all\"": "LenMode = \"pat\"", "LenPats <- LP6": "LenPats <- LP3"}, "CopyIndep"),
     ("int_count_trim", {"XOps <- CallsX": "XOps <- OnlyFil"}, "RefConsist"),
-    ("contrast_incomplete", {"XOps <- CallsX": "XOps <- OnlyCtr"}, "ContrastDesign"),
-    ("best_all_ties", {"XOps <- CallsX": "XOps <- OnlyBest"}, "BestDesign"),
+    ("contrast_incomplete", {"XOps <- CallsX": "XOps <- DesignOnly"}, "ContrastDesign"),
+    ("best_all_ties", {"XOps <- CallsX": "XOps <- DesignOnly"}, "BestDesign"),
     ("logged_pos_ids", {'XMode = "hist"': 'XMode = "logged"'}, "LgDesign"),
 )
 SCRATCH = None      # set in run(), inherited by the forked workers
@@ -151,7 +151,7 @@ def kwform(case, atom, alt):
     kind, col, op, vals = atom
     vs = [atom_value(case, col, a) for a in vals]
     if kind == "call": return sat(op, vs)
-    if op == "eq": return {"=": vs[0]} if alt else vs[0]
+    if op == "eq": return {"=": vs[0]} if alt or isinstance(vs[0], tuple) else vs[0]       # a tuple given bare is documented to mean `in`
     if op == "in": return {"in": vs} if alt else vs
     return {{"ne": "!=", "nin": "!in", "le": "<=", "lt": "<", "ge": ">=", "gt": ">"}[op]: vs if op == "nin" else vs[0]}
 
@@ -332,7 +332,11 @@ def replay(h, enc, route, variant, seed, nm=None, tag="r"):
                     note(sig, "%s is %r although the spec says %r: evaluations %r / %r, parameter ids %r / %r" % (call, g1, step["out"]["val"], ea["ev"], eb["ev"], ea["tmax"], eb["tmax"]))
                 if not (a == a): note("eq:irreflexive", "object %d != itself" % (s + 1))
         except Exception as ex:
-            note("%s:raises:%s" % (op, type(ex).__name__), "step %d %s on object %d raised %s: %s" % (k, call, s + 1, type(ex).__name__, str(ex)[:200]))
+            sig = "%s:raises:%s" % (op, type(ex).__name__)
+            if op == "contrast" and isinstance(ex, KeyError) and args[3] == ["learner_id"]:
+                have = set(recv.learners["learner_id"])
+                if any(sorted(S)[0][0] not in have for S in (args[0], args[1])): sig = "contrast:first-level-absent:KeyError"
+            note(sig, "step %d %s on object %d raised %s: %s" % (k, call, s + 1, type(ex).__name__, str(ex)[:200]))
             if CobaContext.logger is not mylog:
                 note("logger-not-restored", "after step %d %s raised, CobaContext.logger is %r, not the logger that was installed" % (k, call, type(CobaContext.logger).__name__))
             return found
@@ -414,7 +418,7 @@ def logged_case(j, variant):
             exp = sorted((dict(mk(p), **{idc: i}, **({"logged": True} if idc == "environment_id" else {})) for i, p in want), key=lambda d: d[idc])
             if got != exp: return ("logged:%s" % name, "%s (call %d): %s table %r, expected %r" % (what, rep, name, got, exp))
         cols = set(res.interactions.columns)
-        wantcols = set(ICOLS) | {"action"} | ({"probability"} if lgin["prob"] else set())
+        wantcols = set(ICOLS) | (({"action"} | ({"probability"} if lgin["prob"] else set())) if out["rows"] else set())
         if cols != wantcols: return ("logged:columns", "%s: interaction columns %r, expected %r" % (what, sorted(cols), sorted(wantcols)))
         got, bad = rows3(res)
         if bad: return ("logged:read-ways", bad)
@@ -527,9 +531,17 @@ def _job(job):
 def plan(ctx):
     """(name, cfg substitutions, simulate, minimum number of cases)"""
     PAT = {'LenMode = "all"': 'LenMode = "pat"'}
-    WIDE = {"EnvConds <- EnvFew": "EnvConds <- EnvAll", "LrnConds <- LrnFew": "LrnConds <- LrnAll", "ValConds <- ValFew": "ValConds <- ValAll",
-            "IntConds <- IntFew": "IntConds <- IntAll", "CtrArgs <- CtrFew": "CtrArgs <- CtrAll", "BestXArgs <- BestFew": "BestXArgs <- BestAll"}
-    NODESIGN = {"INVARIANT FilterCommute\n": "", "INVARIANT BestDesign\n": "", "INVARIANT ContrastDesign\n": ""}
+    def sets(size):
+        return {"EnvConds <- EnvFew": "EnvConds <- Env" + size, "LrnConds <- LrnFew": "LrnConds <- Lrn" + size, "ValConds <- ValFew": "ValConds <- Val" + ("All" if size == "All" else "Few"),
+                "IntConds <- IntFew": "IntConds <- Int" + size, "CtrArgs <- CtrFew": "CtrArgs <- Ctr" + size, "BestXArgs <- BestFew": "BestXArgs <- Best" + size}
+    MID, WIDE = sets("Mid"), sets("All")
+    DESIGN = {"XOps <- CallsX": "XOps <- DesignOnly"}
+    QD = {"CtrArgs <- CtrFew": "CtrArgs <- CtrMid", "BestXArgs <- BestFew": "BestXArgs <- BestMid"}       # quick design runs: few filter conditions, mid contrast / best arguments
+    CB = {"XOps <- CallsX": "XOps <- CtrBest"}
+    G222 = {"Dims <- D221": "Dims <- D222", "TabFull <- Bools": "TabFull <- OnlyF"}
+    G331 = {"Dims <- D221": "Dims <- D331", "TabFull <- Bools": "TabFull <- OnlyF", "MaxLen = 2": "MaxLen = 3", "Pars <- P2": "Pars <- P4"}
+    OBJ = {"XOps <- CallsX": "XOps <- ObjX", "EnvConds <- EnvFew": "EnvConds <- Env2", "LrnConds <- LrnFew": "LrnConds <- Lrn2", "ValConds <- ValFew": "ValConds <- Val1",
+           "IntConds <- IntFew": "IntConds <- Int2"}
     def S(*ds):
         out = {}
         for d in ds: out.update(d)
@@ -538,40 +550,42 @@ def plan(ctx):
         return [
             ("table", {'XMode = "hist"': 'XMode = "table"'}, None, 2000),
             ("logged", {'XMode = "hist"': 'XMode = "logged"'}, None, 2000),
-            # every Result of the 2x2x1 grid (lengths 1..2, parameter tables exact or with unreferenced rows): every single call of the wide argument sets
-            ("g221-calls", S(WIDE), None, 20000),
-            # two evaluators / three learners / three environments: contrast and best-of where pairing groups and levels differ
-            ("g222-calls", S(WIDE, PAT, {"Dims <- D221": "Dims <- D222", "LenPats <- LP6": "LenPats <- LP3", "TabFull <- Bools": "TabFull <- OnlyF", "MaxMissing = 9": "MaxMissing = 2",
-                                        "XOps <- CallsX": "XOps <- CtrBest"}), None, 5000),
-            ("g331-calls", S(WIDE, PAT, {"Dims <- D221": "Dims <- D331", "LenPats <- LP6": "LenPats <- LP3", "TabFull <- Bools": "TabFull <- OnlyF", "MaxMissing = 9": "MaxMissing = 1",
-                                        "MaxLen = 2": "MaxLen = 3", "Pars <- P2": "Pars <- P4", "XOps <- CallsX": "XOps <- CtrBest"}), None, 5000),
+            # the design facts on every Result of the 2x2x1 grid and on patterned 2x2x2 / 3x3x1 Results
+            ("design-g221", S(QD, DESIGN), None, 0),
+            ("design-g222", S(QD, DESIGN, PAT, G222, {"LenPats <- LP6": "LenPats <- LP3", "MaxMissing = 9": "MaxMissing = 2"}), None, 0),
+            ("design-g331", S(QD, DESIGN, PAT, G331, {"LenPats <- LP6": "LenPats <- LP3", "MaxMissing = 9": "MaxMissing = 1", "Pars <- P4": "Pars <- P2"}), None, 0),
+            # every Result of the 2x2x1 grid (lengths 1..2, parameter tables exact or with unreferenced rows): every single call
+            ("g221-calls", S(MID), None, 10000),
+            # two evaluators / three learners and environments: contrast and best-of where pairing groups and levels differ
+            ("g222-calls", S(MID, CB, PAT, G222, {"LenPats <- LP6": "LenPats <- LP3", "MaxMissing = 9": "MaxMissing = 1"}), None, 1500),
+            ("g331-calls", S(MID, CB, PAT, G331, {"LenPats <- LP6": "LenPats <- LP3", "MaxMissing = 9": "MaxMissing = 1", "Pars <- P4": "Pars <- P2"}), None, 2000),
             # the workspace: copies, re-binding of experiment, a log read back, ==, filters; any object may be the receiver
-            ("g221-objects", S(PAT, {"XOps <- CallsX": "XOps <- ObjX", "MaxOps = 1": "MaxOps = 3", "LenPats <- LP6": "LenPats <- LP3", "MaxMissing = 9": "MaxMissing = 1",
-                                     "EnvConds <- EnvFew": "EnvConds <- Env2", "LrnConds <- LrnFew": "LrnConds <- Lrn2", "ValConds <- ValFew": "ValConds <- Val1", "IntConds <- IntFew": "IntConds <- Int2",
-                                     "Pars <- P2": "Pars <- P1"}), None, 5000),
+            ("g221-objects", S(PAT, OBJ, {"MaxOps = 1": "MaxOps = 2", "LenPats <- LP6": "LenPats <- LP3", "MaxMissing = 9": "MaxMissing = 1", "Pars <- P2": "Pars <- P1"}), None, 2000),
             # chains of every call on the larger grids
-            ("chains-sim", S(PAT, WIDE, NODESIGN, {"Dims <- D221": "Dims <- DAll", "MaxOps = 1": "MaxOps = 4", "MaxLen = 2": "MaxLen = 3", "Pars <- P2": "Pars <- P4",
-                                                   "MaxMissing = 9": "MaxMissing = 3", "XOps <- CallsX": "XOps <- AllX", "InitExps <- Exp1": "InitExps <- Exp01"}), dict(num=60), 1000),
+            ("chains-sim", S(PAT, MID, {"Dims <- D221": "Dims <- DAll", "MaxOps = 1": "MaxOps = 4", "MaxLen = 2": "MaxLen = 3", "Pars <- P2": "Pars <- P4",
+                                        "MaxMissing = 9": "MaxMissing = 3", "XOps <- CallsX": "XOps <- AllX", "InitExps <- Exp1": "InitExps <- Exp01"}), dict(num=2), 500),
         ]
     return [
         ("table", {'XMode = "hist"': 'XMode = "table"', "TbMax = 3": "TbMax = 4", "TbWheres <- TWFew": "TbWheres <- TWAll"}, None, 20000),
         ("table3", {'XMode = "hist"': 'XMode = "table"', "TbVals <- TV2": "TbVals <- TV3", "TbWheres <- TWFew": "TbWheres <- TWAll"}, None, 20000),
         ("logged", {'XMode = "hist"': 'XMode = "logged"', "LgMax = 3": "LgMax = 4", "LgLens <- Len02": "LgLens <- Len012"}, None, 20000),
         ("logged3", {'XMode = "hist"': 'XMode = "logged"', "LgE <- E2": "LgE <- E3", "LgV <- V01": "LgV <- V012"}, None, 20000),
+        ("design-g221", S(WIDE, DESIGN, {"MaxLen = 2": "MaxLen = 3", "Pars <- P2": "Pars <- P4"}), None, 0),
+        ("design-g222", S(WIDE, DESIGN, G222), None, 0),
+        ("design-g321", S(WIDE, DESIGN, {"Dims <- D221": "Dims <- D321", "TabFull <- Bools": "TabFull <- OnlyF", "MaxMissing = 9": "MaxMissing = 3"}), None, 0),
+        ("design-g331", S(WIDE, DESIGN, PAT, G331, {"MaxMissing = 9": "MaxMissing = 2"}), None, 0),
+        ("design-g232", S(WIDE, DESIGN, PAT, G331, {"Dims <- D331": "Dims <- D232", "MaxMissing = 9": "MaxMissing = 2"}), None, 0),
         ("g221-calls", S(WIDE, {"MaxLen = 2": "MaxLen = 3", "Pars <- P2": "Pars <- P4"}), None, 100000),
-        ("g222-calls", S(WIDE, {"Dims <- D221": "Dims <- D222", "TabFull <- Bools": "TabFull <- OnlyF", "XOps <- CallsX": "XOps <- CtrBest"}), None, 50000),
-        ("g321-calls", S(WIDE, {"Dims <- D221": "Dims <- D321", "TabFull <- Bools": "TabFull <- OnlyF", "MaxMissing = 9": "MaxMissing = 3"}), None, 50000),
-        ("g231-calls", S(WIDE, {"Dims <- D221": "Dims <- D231", "TabFull <- Bools": "TabFull <- OnlyF", "MaxMissing = 9": "MaxMissing = 3", "Pars <- P2": "Pars <- P4"}), None, 50000),
-        ("g331-calls", S(WIDE, PAT, {"Dims <- D221": "Dims <- D331", "TabFull <- Bools": "TabFull <- OnlyF", "MaxMissing = 9": "MaxMissing = 2",
-                                    "MaxLen = 2": "MaxLen = 3", "Pars <- P2": "Pars <- P4", "XOps <- CallsX": "XOps <- CtrBest"}), None, 50000),
-        ("g232-calls", S(WIDE, PAT, {"Dims <- D221": "Dims <- D232", "TabFull <- Bools": "TabFull <- OnlyF", "MaxMissing = 9": "MaxMissing = 2",
-                                    "MaxLen = 2": "MaxLen = 3", "Pars <- P2": "Pars <- P4", "XOps <- CallsX": "XOps <- CtrBest"}), None, 50000),
-        ("g221-objects", S(PAT, {"XOps <- CallsX": "XOps <- ObjX", "MaxOps = 1": "MaxOps = 3", "MaxMissing = 9": "MaxMissing = 2", "InitExps <- Exp1": "InitExps <- Exp01",
-                                 "EnvConds <- EnvFew": "EnvConds <- Env2", "LrnConds <- LrnFew": "LrnConds <- Lrn2", "ValConds <- ValFew": "ValConds <- Val1", "IntConds <- IntFew": "IntConds <- Int2"}), None, 50000),
+        ("g222-calls", S(WIDE, CB, G222), None, 50000),
+        ("g321-calls", S(WIDE, {"Dims <- D221": "Dims <- D321", "TabFull <- Bools": "TabFull <- OnlyF", "MaxMissing = 9": "MaxMissing = 2"}), None, 50000),
+        ("g231-calls", S(WIDE, {"Dims <- D221": "Dims <- D231", "TabFull <- Bools": "TabFull <- OnlyF", "MaxMissing = 9": "MaxMissing = 2", "Pars <- P2": "Pars <- P4"}), None, 50000),
+        ("g331-calls", S(WIDE, CB, PAT, G331, {"MaxMissing = 9": "MaxMissing = 2"}), None, 50000),
+        ("g232-calls", S(WIDE, CB, PAT, G331, {"Dims <- D331": "Dims <- D232", "MaxMissing = 9": "MaxMissing = 2"}), None, 50000),
+        ("g221-objects", S(PAT, OBJ, {"MaxOps = 1": "MaxOps = 3", "LenPats <- LP6": "LenPats <- LP3", "MaxMissing = 9": "MaxMissing = 1", "InitExps <- Exp1": "InitExps <- Exp01", "Pars <- P2": "Pars <- P1"}), None, 50000),
         ("g221-chain2", S(PAT, {"MaxOps = 1": "MaxOps = 2", "LenPats <- LP6": "LenPats <- LP3", "TabFull <- Bools": "TabFull <- OnlyF", "RecvAll = TRUE": "RecvAll = FALSE"}), None, 50000),
-        ("chains-sim", S(PAT, WIDE, NODESIGN, {"Dims <- D221": "Dims <- DAll", "MaxOps = 1": "MaxOps = 5", "MaxLen = 2": "MaxLen = 4", "Pars <- P2": "Pars <- P4",
-                                               "MaxMissing = 9": "MaxMissing = 4", "XOps <- CallsX": "XOps <- AllX", "InitExps <- Exp1": "InitExps <- Exp012",
-                                               "Salts = {0}": "Salts = {0, 1, 2}"}), dict(num=3000), 20000),
+        ("chains-sim", S(PAT, WIDE, {"Dims <- D221": "Dims <- DAll", "MaxOps = 1": "MaxOps = 5", "MaxLen = 2": "MaxLen = 4", "Pars <- P2": "Pars <- P4",
+                                     "MaxMissing = 9": "MaxMissing = 4", "XOps <- CallsX": "XOps <- AllX", "InitExps <- Exp1": "InitExps <- Exp012",
+                                     "Salts = {0}": "Salts = {0, 1, 2}"}), dict(num=12), 20000),
     ]
 
 
@@ -592,33 +606,26 @@ def run(ctx):
     def model(item):
         name, sub, sim, least = item
         cfg = tracecheck._cfg("ResultMore.cfg", sub, ctx.scratch, "rm_%s.cfg" % name)
-        kw = dict(workers=8, timeout=3000, heap="8g")
+        kw = dict(workers=4, timeout=3000, heap="6g")
         if sim: kw.update(simulate=sim, depth=8, seed=ctx.seed)
         r = tlc.run("MC_ResultMore", cfg, ctx.scratch, **kw)
         r.out = ""
         return r
 
-    # ---- the broken variants must be rejected by TLC (otherwise the invariants say nothing)
-    rejected = {}
+    items = plan(ctx)
+    pool = multiprocessing.get_context("fork").Pool(WORKERS)       # forked before any thread exists
+    # two TLC runs (4 workers each) at a time, in plan order; the broken variants last.  Results are consumed in plan order.
+    ex = concurrent.futures.ThreadPoolExecutor(2)
+    futs = [ex.submit(model, it) for it in items]
+    vfuts = []
     for vname, sub, inv in VARIANTS:
         s = dict(sub); s['Variant = "none"'] = 'Variant = "%s"' % vname
-        r = model(("variant_" + vname, s, None, 0))
-        ctx.add_tlc("ResultMore_variant_" + vname, r)
-        names = sorted({v["name"] for v in r.violations})
-        rejected[vname] = names
-        if inv not in names:
-            raise RuntimeError("the broken variant %s was not rejected by %s (TLC reported %r): the invariants are vacuous" % (vname, inv, names))
-    ctx.extra["broken_variants_rejected_by"] = rejected
-
-    items = plan(ctx)
-    pool = multiprocessing.get_context("fork").Pool(WORKERS)
-    ex = concurrent.futures.ThreadPoolExecutor(1)
-    nxt = ex.submit(model, items[0])
+        vfuts.append(ex.submit(model, ("variant_" + vname, s, None, 0)))
     ops = {}; outcomes = {}; total = 0
     for k, (name, sub, sim, least) in enumerate(items):
-        r = nxt.result()
-        nxt = ex.submit(model, items[k + 1]) if k + 1 < len(items) else None
+        r = futs[k].result(); futs[k] = None
         ctx.add_tlc("ResultMore_" + name, r)
+        if name.startswith("design"): continue
         for v in r.violations:
             ctx.violation("spec:%s" % (v["name"] or v["kind"]), "ResultMore.tla itself violates %s (%s)" % (v["name"], name), v["trace"][:60])
         if name.startswith(("table", "logged")):
@@ -664,7 +671,18 @@ def run(ctx):
         mid = hists[keys[len(keys) // 2]]
         ctx.sample([(s["op"], s["recv"], s["args"] if s["op"] != "new" else s["args"][0]) for s in mid], limit=6)
         del jobs, r
-    pool.close(); pool.join(); ex.shutdown()
+    pool.close(); pool.join()
+    # ---- the broken variants must be rejected by TLC (otherwise the invariants say nothing)
+    rejected = {}
+    for (vname, sub, inv), f in zip(VARIANTS, vfuts):
+        r = f.result()
+        ctx.add_tlc("ResultMore_variant_" + vname, r)
+        names = sorted({v["name"] for v in r.violations})
+        rejected[vname] = names
+        if inv not in names:
+            raise RuntimeError("the broken variant %s was not rejected by %s (TLC reported %r): the invariants are vacuous" % (vname, inv, names))
+    ctx.extra["broken_variants_rejected_by"] = rejected
+    ex.shutdown()
     for op in ("copy", "setexp", "load", "fpar", "fint", "best", "contrast", "eq", "tb", "lg"):
         if not ops.get(op): raise RuntimeError("no case exercises the action %s" % op)
     for o in ("contrast:rows", "contrast:raise", "best:tied", "fint:not-a-prefix", "eq:True", "eq:False"):
